@@ -386,5 +386,5 @@ func drawTri(t *rapid.T) triCase {
 }
 
 func TestTri(t *testing.T) {
-	vk.Run(t, "tri", vk.Opts{Quick: 600, Thorough: 25000}, drawTri, finish(checkTri))
+	vk.Run(t, "tri", vk.Opts{Quick: 600, Thorough: 15000}, drawTri, finish(checkTri))
 }
